@@ -332,5 +332,21 @@ CHECKS["C10"] = dict(
     legs=[dict(name="stress", test="^TestConcurrentDelivery$", kind="plain", quick=dict(n=24, procs=4, timeout=600), thorough=dict(n=1200, procs=12, timeout=3000))],
 )
 
+CHECKS["C15"] = dict(
+    level="fault_enumeration",
+    technique="crash-point injection over generated store schedules (rapid): a re-executed child stores messages from 1-64 goroutines on the disk provider and is "
+              "SIGKILLed after a drawn delay / acknowledgement count, kills itself right after a burst, or closes cleanly; a fresh process reopens and pages "
+              "through history; oracle: acknowledged => returned identical, returned => submitted",
+    level_text="Per generated case 2-5 consecutive lives on one directory, each ending by SIGKILL after 0-150 ms or after 1-300 acknowledgements, by a self-kill "
+               "the instant the last Store of a concurrent burst returned, or by a clean Close. After every life a fresh process opens the directory: the store "
+               "must open, every message whose Store had returned must come back with identical id, channel, payload and ttl, no message twice while paging, "
+               "and nothing that was never submitted (submitted-but-unacknowledged may go either way).",
+    level_note="Process death only (SIGKILL): power loss / fsync behaviour (SyncWrites=false) is not observable in this sandbox and not claimed. Trusted: the "
+               "TRY/ACK line protocol over a pipe (an ACK line is written only after Store returned).",
+    rule="one generated case = 2-5 kill/restart cycles; non-trivial = a life ended by a kill with >=1 acknowledged store and stores in flight (or a self-kill right after "
+         "a burst); distinct = distinct case value.",
+    legs=[dict(name="kill-points", test="^TestKillPoints$", quick=dict(n=16, procs=4, timeout=600), thorough=dict(n=800, procs=12, timeout=3000))],
+)
+
 for _k in CHECKS:
     NOT_APPLICABLE.pop(_k, None)
